@@ -50,8 +50,10 @@ def gen_orbit_spec(rng, kind, real_eop=False):
             "mans": [],
         }
         t = 0.0
-        for _ in range(rng.choice([0, 0, 1, 2])):
+        for k_ in range(rng.choice([0, 0, 1, 2])):
             t += rng.uniform(60, 2500)
+            if k_ == 0 and rng.random() < 0.25:
+                t = 0.0  # a maneuver dated exactly at the epoch
             if rng.random() < 0.6:
                 spec["mans"].append({"type": "imp", "off_s": round(t, 0), "dv": [rng.uniform(-1, 1), rng.uniform(-1, 1), rng.uniform(-0.3, 0.3)]})
             else:
@@ -270,6 +272,10 @@ def gen_iter_plan(rng, mode="C08"):
         call = gen_ephem_call(rng, spec, len(listeners)) if spec["kind"] == "ephem" else gen_orbit_call(rng, spec, len(listeners))
         busy = {j for t_, _ in live for j in task_listeners.get(t_, [])}
         call = strip_live_listeners(rng, call, busy)
+        if not call.get("listeners") and rng.random() < 0.2:
+            call["scribble"] = rng.choice(["spherical", "keplerian", "keplerian_mean"]) if spec["kind"] not in ("cw",) and spec.get("src", {}).get("kind") != "cw" else "spherical"
+            if rng.random() < 0.5:
+                call["scribble_frame"] = rng.choice(["ITRF", "TEME", "MOD"])
         tid = ntasks
         ntasks += 1
         task_listeners[tid] = call.get("listeners", [])
